@@ -457,3 +457,59 @@ def userdata_clones(fb, rep):
         else:
             rep.violation(R, "userdata-clone|%s" % self_adt, "%s does not rebuild the userdata in the destination heap (alloc_in_cloner_gc=%s %s)" % (b.id, good_alloc, "; ".join(detail)), b.where())
     rep.floor(R, "Userdata::deep_clone overrides", n, 2)
+
+
+def cloner_helpers(fb, rep):
+    """E4c (continued): the per-representation helpers copy *every* slot through the cloner and go through the
+    visited map (which is what preserves sharing and terminates on cycles)"""
+    R = "E4c"
+    CL = "gluon_vm::value::Cloner::<'t>::"
+    VALS = ("gluon_vm::value::Value", "gluon_vm::value::ValueRepr")
+    helpers = ["deep_clone_data", "deep_clone_closure", "deep_clone_app", "deep_clone_array"]
+    for h in helpers:
+        b = fb.body(CL + h)
+        if b is None:
+            rep.anchor_lost(R, CL + h)
+            continue
+        group = [b] + fb.closures_of(b.id) + [x for i, x in fb.bodies.items() if i.startswith(b.id + "::") and "{closure" not in i and "{promoted" not in i]
+        via_visited = any(c.res == CL + "deep_clone_ptr" for c in b.calls())
+        if via_visited:
+            rep.ok(R, "%s allocates through deep_clone_ptr (visited map)" % h)
+        else:
+            rep.violation(R, "helper-bypasses-visited|%s" % h, "%s no longer goes through deep_clone_ptr: shared or cyclic structure is duplicated or loops forever" % h, b.where())
+        # every slot store of a VM value comes from a recursive clone
+        n_store = 0
+        bad = []
+        for x in group:
+            for i, j, pl, rv, ln in x.assigns():
+                if pl[1] != ["*"] or rv[0] != "use":
+                    continue
+                p_ = op_place(rv[1])
+                if p_ is None:
+                    continue
+                ts = x.local_tstr(p_[0]) if not p_[1] else ""
+                row = x.local_ty(pl[0])
+                inner = x.strip_refs(row).get("s", "")
+                if ts in VALS or inner in VALS or "GcPtr<" in inner or inner == "T":
+                    n_store += 1
+                    srcs = flow.sources(x, rv[1])
+                    if not flow.has_call(srcs, lambda n: "deep_clone" in n or n.endswith("FnMut::call_mut") or n.endswith("Fn::call")):
+                        bad.append("%s:%s" % (x.file, ln))
+        if bad:
+            rep.violation(R, "slot-not-cloned|%s" % h, "%s fills a slot of the copy with a value that did not pass the cloner (the copy points into the source heap)" % h, bad[0])
+        elif n_store:
+            rep.ok(R, "%s: every slot of the copy is filled from a recursive clone (%d store sites)" % (h, n_store))
+        else:
+            rep.violation(R, "no-slot-fill|%s" % h, "%s no longer fills the slots of the fresh copy" % h, b.where())
+    # the visited map: occupied -> reuse, vacant -> allocate and remember
+    p_ = fb.body(CL + "deep_clone_ptr")
+    if p_ is None:
+        rep.anchor_lost(R, CL + "deep_clone_ptr")
+        return
+    ent = [c for c in p_.calls() if c.res.endswith("::entry") and ("field", "gluon_vm::value::Cloner", "visited") in flow.sources(p_, c.args[0])]
+    ins = [c for c in p_.calls() if c.res.endswith("VacantEntry::<'a, K, V>::insert") or c.res.endswith("::insert")]
+    get = [c for c in p_.calls() if c.res.endswith("OccupiedEntry::<'a, K, V>::get") or c.res.endswith("::get")]
+    if ent and ins and get:
+        rep.ok(R, "deep_clone_ptr: visited.entry(ptr): occupied -> the earlier copy, vacant -> allocate and record")
+    else:
+        rep.violation(R, "visited-map-shape", "deep_clone_ptr no longer consults and updates the visited map (entry=%s insert=%s get=%s)" % (bool(ent), bool(ins), bool(get)), p_.where())
